@@ -6,7 +6,7 @@ from check import *
 import native as nat
 import C19
 
-EXPLANATION = ('C20: In_Units (all overloads): In_Units(q*u, u) = q for u != 0, container overloads equal the scalar overload element by element, the rounding variant is Round(q/u, digits), ragged tables against per-column units exit; '
+EXPLANATION = ('C20: In_Units (all overloads): In_Units(q*u, u) = q for u != 0, container overloads equal the scalar overload element by element, the rounding variant is Round(q/u, digits) - for the scalar and for every container overload -, ragged tables against per-column units exit; '
                'unit constants: Natural_Units.cpp lowered with clang at -O0, -O1 and -O2; the module initialiser is executed from zero-initialised storage with every access to a global recorded: no dynamically initialised constant is read before it has been written (initialisation-order taint), '
                'and after initialisation every derived unit equals its defining product of the stored base constants within 4 ulp (closed query: no free input); '
                'text import on an abstract file (std::ifstream / getline / operator>> / ignore are environment stubs on a file of h header lines and R x C numbers): Count_Lines counts every line whatever its length, Import_Table returns shape R x C with entry = number x unit of its column, Import_List all numbers x unit; '
@@ -82,6 +82,15 @@ def job_in_units(rows, cols):
                 vals = [p.st.load(outp['a'] + 8 * k, 8, True) for k in range(rows * cols)]
                 want = [Q[i][j] / (U if op != 7 else (j + 1) * U) for i in range(rows) for j in range(cols)]
                 res.append(prove('in-units/%s/%s/element-wise[%d]' % (nm, sh, pi), p.st.pc + [U != 0], z3.And(*[toR(v) == w for v, w in zip(vals, want)]), 10000, dict(mv, op=op), key='C20/in-units/element-wise'))
+    # the same overloads with round = true: every element is Round(q / unit, digits) (Round itself is C17's subject and stays uninterpreted here)
+    for op, nm in ((13, 'std::vector'), (15, 'Vector'), (14, 'table'), (16, 'Matrix'), (17, 'table-per-column-units')):
+        if op in (13, 15) and rows != 1: continue
+        for pi, p in enumerate(call(op, flatq, rows, cols, digits=3)):
+            if p.end is not None: res.append(prove('in-units/rounded/%s/%s/returns[%d]' % (nm, sh, pi), p.st.pc, z3.BoolVal(False), 10000, dict(mv, op=op), key='C20/in-units/returns', detail=str(p.end))); continue
+            if p.ret != rows * cols: res.append(ob('in-units/rounded/%s/%s/count[%d]' % (nm, sh, pi), 'candidate', key='C20/in-units/shape', model=dict(mv, op=op), detail='%s values' % p.ret)); continue
+            vals = [p.st.load(outp['a'] + 8 * k, 8, True) for k in range(rows * cols)]
+            want = [RND(Q[i][j] / (U if op != 17 else (j + 1) * U), 3) for i in range(rows) for j in range(cols)]
+            res.append(prove('in-units/rounded/%s/%s/element-wise[%d]' % (nm, sh, pi), p.st.pc + [U != 0], z3.And(*[toR(v) == w for v, w in zip(vals, want)]), 10000, dict(mv, op=op, digits=3), key='C20/in-units/rounded'))
     if rows > 1 and cols > 1:
         ps = call(7, flatq, rows, cols, ragged=1)
         ok = bool(ps) and all(p.end is not None and p.end.kind == 'exit' and any(e[0] == 'diag' for e in p.st.events) for p in ps)
@@ -367,6 +376,16 @@ def replay(ctx, o):
             if not (abs(u[n] - want) <= 4 * 2.3e-16 * abs(want)) or u[n] == 0: bad.append('%s=%r (defining product %r)' % (n, u[n], want))
         return bool(bad), 'native g++ -O2 build of Natural_Units.cpp: %s' % ('; '.join(bad[:4]) or 'all derived constants equal their defining products (the %s configuration differs)' % m.get('opt'))
     so = C19.native(ctx); rows, cols = m['rows'], m['cols']; q = [fl(x) for x in m['q']]; u = fl(m['u']) or 2.0; op = m['op']
+    if op >= 13:
+        # container overloads with rounding: the native result against the native scalar overload applied element by element (values with more digits than requested; the model's unit is kept - it may be exactly 1)
+        q = [(1.23456 + 0.731 * k) * (-1) ** k * 10.0 ** (k % 3) for k in range(rows * cols)]
+        r = nat.call(so, 'verif_in_units', [('i32', op), ('u32', rows), ('u32', cols), ('dbl[]', q), u, ('u32', 3), ('i32', 0), ('dbl[]', [0.0] * 32)], restype='long')
+        if r['status'] != 'ok': return True, 'native In_Units (rounded, overload %d): %s' % (op - 10, r['status'])
+        got = r['arrays'][1][:max(r['ret'], 0)]; want = []
+        for i in range(rows):
+            for j in range(cols):
+                want.append(nat.call(so, 'verif_in_units', [('i32', 2), ('u32', 1), ('u32', 1), ('dbl[]', [q[i * cols + j]]), (u if op != 17 else (j + 1) * u), ('u32', 3), ('i32', 0), ('dbl[]', [0.0] * 32)], restype='long')['arrays'][1][0])
+        return (len(got) != len(want) or got != want), 'native In_Units(container, unit %r, round to 3 digits) overload %d on %dx%d: %s; the scalar overload gives %s' % (u, op - 10, rows, cols, got[:6], want[:6])
     if op == 1: q = [q[0] * u]
     r = nat.call(so, 'verif_in_units', [('i32', op), ('u32', rows if op in (4, 6, 7) else 1), ('u32', cols if op != 1 and op != 2 else 1), ('dbl[]', q), u, ('u32', 3), ('i32', m.get('ragged', 0)), ('dbl[]', [0.0] * 32)], restype='long')
     if key == 'C20/in-units/ragged-rejected': return r['status'] != 'exit', 'native In_Units on a ragged table: %s' % r.get('ret', r['status'])
